@@ -717,12 +717,12 @@ def _call_index(case):
     def walk(c, ti, depth):
         if c.get('construct'):
             return
-        out[c['tok']] = (ti, c['app'], depth)
+        out.setdefault(c['tok'], []).append((ti, c['app'], depth))
         for a in c['script']:
             if a[0] == 'call':
                 walk(a[1], ti, depth + 1)
             elif a[0] == 'call_copy':
-                out[c['tok'] + 'cc'] = (ti, a[1], depth + 1)
+                out.setdefault(c['tok'] + 'cc', []).append((ti, a[1], depth + 1))
             elif a[0] == 'listen_around':
                 for b in a[1]:
                     if b[0] == 'call':
@@ -744,13 +744,13 @@ def _listener_in_handler(case, what, m):
     if not mm:
         return False
     idx = _call_index(case)
-    me = idx.get(mm.group(1))
+    mine = idx.get(mm.group(1))
     foreign = mm.group(2).split()
-    if me is None or not foreign:
+    if not mine or not foreign:
         return False
+    # (a token may name several calls: two copies forwarded by one handler)
     for tok in foreign:
-        other = idx.get(tok)
-        if other is None or other[0] == me[0] or other[1] != me[1]:
+        if not any(o[0] != me[0] and o[1] == me[1] for me in mine for o in idx.get(tok, [])):
             return False
     return True
 
